@@ -49,9 +49,12 @@ ENCODED = [
     "tensorly.cp_tensor.cp_normalize",
 ]
 BOUNDS = {
-    "quick": "ranks 1-3, factor matrices with 2-3 rows, 1-2 matrices per list (3 for rank <= 2), all column permutations, symbolic non-zero scalings (any sign), "
-    "absolute_value on/off, all four correlation-index methods, metric arrays of <= 3x3 entries with axis None/0/1, leverage scores of 2x2, 3x2, 2x3 matrices",
-    "thorough": "as quick plus 3 matrices per list at rank 3, rows (3,3), correlation index with 3 matrices, leverage scores of 3x3 matrices",
+    "quick": "congruence: ranks 1-3, lists of 1-3 factor matrices with row counts (2), (3), (2,3), (2,2,3) (three matrices only up to rank 2), absolute_value on/off; "
+    "invariance: every column permutation (rank 3 with two matrices: one 3-cycle and one transposition), symbolic non-zero scalings of any sign per matrix and column; "
+    "correlation index: all four methods, ranks 1-3, row counts (2), (3), (2,2), default tol; cp_permute_factors: rank 2, shape 2x2, single tensor and one-element list; "
+    "metrics: arrays of shape (2), (3), (2,2), (2,3), (3,2) with axis None/0/1; leverage scores: 2x2, 3x2, 2x3 matrices, float64 path and low-precision renormalisation path",
+    "thorough": "as quick plus: congruence rows (3,3) and three matrices at rank 3, invariance with (2,2,3) and all permutations, correlation index rows (2,3), "
+    "cp_permute_factors for 2x2x2 / rank 3 / list argument with the alignment chain, metric shapes (3,3), (2,2,2), leverage scores of 3x3 matrices",
 }
 OUTSIDE = [
     "ranks > 3, more than 3 rows per factor matrix, more than 3 matrices per list",
@@ -72,6 +75,10 @@ ASSUMPTIONS = [
     "recovering-permutation uniqueness: columns of the first matrix pairwise non-parallel",
 ]
 
+import tensorly.metrics.similarity as _MS
+
+_REAL_CI = _MS._compute_correlation_index
+_REAL_LSA = MF.linear_sum_assignment
 _PROVED = set()  # (config key, lemma name, decisions) proved on an earlier path of the same configuration (same process)
 
 
@@ -104,6 +111,8 @@ def configs(tier):
     for R in (1, 2, 3):
         for rows in [(2,), (3,), (2, 3)] + ([] if q else [(2, 2, 3)]):
             for pi in itertools.permutations(range(R)):
+                if q and R == 3 and len(rows) > 1 and pi not in ((1, 2, 0), (0, 2, 1)):
+                    continue
                 add("cong_inv", R=R, rows=rows, pi=pi, cost=R * len(rows))
     # correlation index (the driver's per-path vacuity query is replaced by one on the paths without tol-snapping:
     # feasibility of `score < 5e-16` is a hard nonlinear query that only costs time)
@@ -113,23 +122,23 @@ def configs(tier):
             for rows in [(2,), (3,), (2, 2)] + ([] if q else [(2, 3)]):
                 add("corr_range", method=method, R=R, rows=rows, **ckw)
                 for pi in itertools.permutations(range(R)):
+                    if q and R == 3 and len(rows) > 1 and pi not in ((1, 2, 0), (0, 2, 1)):
+                        continue
                     if method == "stacked" and len(rows) > 1:
                         add("corr_equiv", method=method, R=R, rows=rows, pi=pi, scale="common", **ckw)
                     add("corr_equiv", method=method, R=R, rows=rows, pi=pi, scale="permatrix", **ckw)
     # cp_permute_factors
-    for aslist in (0, 1):
-        add("cp_permute", R=2, shape=(2, 2), aslist=aslist, mode="fork")
+    # (align=1: also the cost-matrix/alignment chain; with a list argument both sides are normalised twice, 15 s per entry)
+    add("cp_permute", R=2, shape=(2, 2), aslist=0, align=1, mode="fork")
+    add("cp_permute", R=2, shape=(2, 2), aslist=1, align=0 if q else 1, mode="fork")
     if not q:
-        add("cp_permute", R=2, shape=(2, 2, 2), aslist=0, mode="fork")
-        add("cp_permute", R=3, shape=(2, 2), aslist=0, mode="fork")
+        add("cp_permute", R=2, shape=(2, 2, 2), aslist=0, align=1, mode="fork")
+        add("cp_permute", R=3, shape=(2, 2), aslist=0, align=1, mode="fork")
     # error metrics
     shapes = [(2,), (3,), (2, 2), (2, 3), (3, 2)] + ([] if q else [(3, 3), (2, 2, 2)])
-    for fn in ("MSE", "RMSE", "covariance", "variance", "correlation"):
+    for fn in ("MSE", "RMSE", "covariance", "variance", "correlation", "R2_score"):
         for shp in shapes:
-            for axis in [None] + list(range(len(shp))):
-                add("metric", fn=fn, shape=shp, axis=axis)
-    for shp in shapes:
-        add("metric", fn="R2_score", shape=shp, axis=None)
+            add("metric", fn=fn, shape=shp)
     # leverage scores
     for shp in [(2, 2), (3, 2), (2, 3)] + ([] if q else [(3, 3)]):
         for dt in ("f64", "lowprec"):
@@ -148,6 +157,29 @@ def dotv(a, b):
 
 def nonzero_columns(E, M):
     return [E.Or([E.Not(E.eq(x, 0)) for x in colv(M, j)]) for j in range(np.shape(M)[1])]
+
+
+def _fresh(base):
+    """fresh abstraction variable of the current path.  Deliberately not registered in CTX.vars (the engine substitutes
+    random values for every registered variable when it interns root atoms; these never occur in code terms)."""
+    import z3
+    from vt import sym
+
+    c = sym.CTX
+    c.nfresh_path += 1
+    return sym.SR(z3.Real(f"{base}!{c.nfresh_path}"))
+
+
+def _abs_plain(E, c):
+    """|c| of an oracle/abstraction term as a plain If term: SR.__abs__ would register it with the engine's |.|-resolution
+    pool (consulted, with solver calls, whenever the code takes a root) and sym.ite would fork in fork mode"""
+    if E.symbolic:
+        import z3
+        from vt import sym
+
+        t = sym.term(c)
+        return sym.SR(z3.If(t >= 0, t, -t), nn=True)
+    return abs(c)
 
 
 def _sq_raw(E, u):
@@ -178,7 +210,7 @@ class Chain:
             return expr
         from vt import sym
 
-        v = sym.SR(sym.CTX.fresh(base))
+        v = _fresh(base)
         sym.CTX.add_fact(group, v.t == sym.term(expr))
         return v
 
@@ -196,16 +228,31 @@ class Chain:
             for g in groups:
                 sym.CTX.add_fact(g, sym.bterm(c))
 
-    def lemma(self, name, cond, groups=(), into=()):
+    def prove(self, name, cond, groups=(), scope=None):
+        """E.prove with an optional hypothesis scope: "pc" drops the branch conditions of the path, "all" keeps only
+        the listed fact groups (+ definedness of divisions).  Fewer hypotheses: sound."""
+        E = self.E
+        if not E.symbolic:
+            return E.prove(name, cond)
+        E.drop_path = scope or False
+        try:
+            return E.prove(name, cond, groups=tuple(groups))
+        finally:
+            E.drop_path = False
+
+    def lemma(self, name, cond, groups=(), into=(), scope=None, per_config=False):
+        """per_config=True (only with a scope, i.e. a query that does not see the branch conditions): the lemma text is the
+        same on every path of the configuration (everything it mentions is created before the first fork that separates
+        the paths, fresh names are numbered deterministically), so it is asked once per configuration."""
         E = self.E
         if E.symbolic:
             from vt import sym
 
-            k = (self.key, name, tuple(sym.CTX.decisions))
+            k = (self.key, name, () if (per_config and scope) else tuple(sym.CTX.decisions))
             if k in _PROVED:
                 ok = True
             else:
-                ok = E.prove(name, cond, groups=tuple(groups))
+                ok = self.prove(name, cond, groups, scope)
                 if ok:
                     _PROVED.add(k)
         else:
@@ -257,7 +304,7 @@ class Cosines:
                     self.g_in.append("in/" + g)
                     c = x / (uA[m, r] * uB[m, s])
                     if absval:
-                        c = abs(c)
+                        c = _abs_plain(E, c)
                     k = ch.ab("cos", c, "k/" + g)
                     self.g_k.append("k/" + g)
                     self.k[m][r][s] = k
@@ -334,7 +381,7 @@ class Assignment:
     def __init__(self, E):
         self.E = E
         self.calls = []  # (cost matrix, returned col_ind, Kc)
-        self._real = MF.linear_sum_assignment
+        self._real = _REAL_LSA
 
     def __enter__(self):
         if self.E.symbolic:
@@ -367,7 +414,7 @@ class Assignment:
         Kc = np.empty((R, R), dtype=object)
         for i in range(R):
             for j in range(R):
-                Kc[i, j] = sym.SR(sym.CTX.fresh("lsa_cost"))
+                Kc[i, j] = _fresh("lsa_cost")
                 sym.CTX.add_fact("lsa_def", Kc[i, j].t == sym.term(cost[i, j]))
         perms = list(itertools.permutations(range(R)))
         tot = {p: sym.term(sum(Kc[i, p[i]] for i in range(R))) for p in perms}
@@ -376,11 +423,50 @@ class Assignment:
                 for s in perms:
                     if s != p:
                         sym.CTX.add_fact("lsa", (tot[p] >= tot[s]) if maximize else (tot[p] <= tot[s]))
+                        # optimum with a margin: only used by the `.../strict_optimum` twins of discrete obligations, whose
+                        # counterexample models must make the real solver return this very permutation in the float64 replay
+                        sym.CTX.add_fact("lsa_margin", (tot[p] >= tot[s] + sym.rv("1/20")) if maximize else (tot[p] + sym.rv("1/20") <= tot[s]))
                 self.calls.append((cost.copy(), np.array(p), Kc))
                 return np.arange(R), np.array(p)
 
 
+def _prove_after_assignment(E, name, cond, groups=()):
+    """obligation stated on a path that fixes the assignment solver's answer, plus its `strict_optimum` twin (same
+    claim under the additional hypothesis that the answer is optimal with a margin): a counterexample of the twin
+    makes the real SciPy routine return the same permutation in the float64 replay, so it reproduces"""
+    ok = E.prove(name, cond, groups=tuple(groups))
+    ok2 = E.prove(name + "/strict_optimum", cond, groups=tuple(groups) + ("lsa_margin", "lsa_def"))
+    return ok and ok2
+
+
+def _eager_atom_lemmas():
+    """the engine keeps the consequences of v = sqrt(sum p_i^2) (v == 0 <=> all p_i == 0, v >= |p_i|) as on-demand
+    refinement lemmas; this module needs them when the code branches on `norm == 0` right after taking the root, so they
+    are asserted as soon as the atom is created (sound: they are consequences of the atom's definition)"""
+    from vt import sym
+
+    c = sym.CTX
+    if not hasattr(c, "atom_lemmas") or getattr(c, "_c20_eager", False):
+        return
+    c._c20_eager = True
+    orig = c.root
+
+    def root(*a, **k):
+        r = orig(*a, **k)
+        done = getattr(c, "_c20_flushed", None)
+        if done is None or done[0] is not c.atom_lemmas:
+            done = c._c20_flushed = [c.atom_lemmas, 0]  # reset_path installs a new list per path
+        for f in c.atom_lemmas[done[1]:]:
+            c.add_fact("def", f)
+        done[1] = len(c.atom_lemmas)
+        return r
+
+    c.root = root
+
+
 def harness(E, cfg):
+    if E.symbolic:
+        _eager_atom_lemmas()
     E.fresh_solver = True  # one-shot nlsat queries: the incremental core gives up on rational-function identities
     E.div_elim = True  # quotients -> products with inverse variables (valid under the definedness assumption)
     return globals()["h_" + cfg["op"]](E, cfg)
@@ -402,15 +488,20 @@ def _congruence_chain(E, ch, cos, lsa, val, perm, R):
     E.prove("cost_matrix/shape", np.shape(cost) == (R, R))
     for r in range(R):
         for s in range(R):
-            ch.lemma(f"cost_matrix/entry{r}{s}_is_minus_cosine_product", E.eq(Kc[r, s], -cos.P[r][s]), groups=("lsa_def",) + cos.g_defs, into=("link",))
+            ch.lemma(f"cost_matrix/entry{r}{s}_is_minus_cosine_product", E.eq(Kc[r, s], -cos.P[r][s]), groups=("lsa_def",) + cos.g_defs, into=("link",), scope="pc", per_config=True)
     perm = [int(p) for p in perm]
-    E.prove("perm/is_permutation", sorted(perm) == list(range(R)))
-    E.prove("perm/is_solver_assignment", perm == [int(c) for c in col])
+    # (the contract groups are listed so that a counterexample model makes the stub's permutation optimal, i.e. replayable)
+    E.prove("perm/is_permutation", sorted(perm) == list(range(R)), groups=("lsa", "lsa_def"))
+    _prove_after_assignment(E, "perm/is_solver_assignment", perm == [int(c) for c in col], groups=("lsa", "lsa_def"))
     v = ch.ab("value", val, "out")
-    ch.lemma("value/is_mean_matched_cosine", E.eq(v, cos.mean(perm)), groups=("out",) + cos.g_defs, into=("link",))
+    # the returned value is minus the mean of the cost entries selected by the returned permutation (code terms only) ...
+    ch.lemma("value/is_minus_mean_assigned_cost", E.eq(v, -sum(Kc[r, perm[r]] for r in range(R)) / R), groups=("out", "lsa_def"), into=("link",), scope="pc")
+    E.prove("value/is_minus_mean_assigned_cost/strict_optimum", E.eq(v, -sum(Kc[r, perm[r]] for r in range(R)) / R), groups=("out", "lsa_def", "lsa_margin"))
+    # ... hence, with the proved cost-matrix entries, the mean matched cosine of the returned permutation (linear)
+    ch.lemma("value/is_mean_matched_cosine", E.eq(v, cos.mean(perm)), groups=("link",), into=("link",), scope="all")
     for s in itertools.permutations(range(R)):
         # concrete mode: brute-force check of SciPy's answer; symbolic mode: linear consequence of the contract + proved links
-        E.prove(f"value/max_over_matchings/{_pstr(s)}", E.ge(v, cos.mean(s)), groups=("lsa", "link"))
+        ch.prove(f"value/max_over_matchings/{_pstr(s)}", E.ge(v, cos.mean(s)), groups=("lsa", "link"), scope="all")
     return v, perm
 
 
@@ -431,7 +522,7 @@ def h_cong_def(E, cfg):
             return
     v, perm = _congruence_chain(E, ch, cos, lsa, val, perm, R)
     if ab:
-        E.prove("value/in_unit_interval", E.And(E.ge(v, 0), E.le(v, 1)), groups=("link", "P", "unit"))
+        ch.prove("value/in_unit_interval", E.And(E.ge(v, 0), E.le(v, 1)), groups=("link", "P", "unit"), scope="all")
 
 
 def h_cong_inv(E, cfg):
@@ -473,10 +564,10 @@ def h_cong_inv(E, cfg):
             E.prove("no_exception", False, detail=f"{type(e).__name__}: {e}")
             return
     v, perm = _congruence_chain(E, ch, cos, lsa, val, perm, R)
-    E.prove("equivalent_sets/value_is_one", E.eq(v, 1), groups=("lsa", "link", "P", "unit", "one"))
-    E.prove("equivalent_sets/returned_permutation_attains_one", E.eq(cos.mean(perm), 1), groups=("lsa", "link", "P", "unit", "one"))
+    ch.prove("equivalent_sets/value_is_one", E.eq(v, 1), groups=("lsa", "link", "P", "unit", "one"), scope="all")
+    ch.prove("equivalent_sets/returned_permutation_attains_one", E.eq(cos.mean(perm), 1), groups=("lsa", "link", "P", "unit", "one"), scope="all")
     # on a path where the solver returned another permutation this asks for infeasibility of that path
-    E.prove("equivalent_sets/permutation_recovers_pi", perm == rho, groups=("lsa", "link", "P", "unit", "one", "strict"))
+    ch.prove("equivalent_sets/permutation_recovers_pi", perm == rho, groups=("lsa", "link", "P", "unit", "one", "strict"), scope="all")
 
 
 # ------------------------------------------------------------------------------------ correlation index
@@ -485,10 +576,12 @@ def _corr_oracle(E, k, R, tol):
     including tensorly's snap-to-zero below `tol`"""
     tot = 0
     for r in range(R):
-        tot = tot + abs(E.max([k[r][s] for s in range(R)]) - 1)
+        tot = tot + _abs_plain(E, E.max([k[r][s] for s in range(R)]) - 1)
     for s in range(R):
-        tot = tot + abs(E.max([k[r][s] for r in range(R)]) - 1)
-    F = tot / (2 * R)
+        tot = tot + _abs_plain(E, E.max([k[r][s] for r in range(R)]) - 1)
+    # 1/(2R) as the float64 constant the code multiplies with (for R = 3 the literal 1/6 is not a binary fraction; the
+    # symbolic run takes float literals exactly, so the real-arithmetic formula uses the same constant)
+    F = (1 / (2 * R)) * tot
     return E.ite(E.gt_strict(tol, F), 0, F)
 
 
@@ -504,13 +597,21 @@ class _RecordCI:
         import tensorly.metrics.similarity as MS
 
         self.E, self.MS = E, MS
-        self.real = MS._compute_correlation_index
+        self.real = _REAL_CI  # captured at import: backend.patch is only undone at the end of a configuration, not per path
         self.calls = []
 
     def wrapper(self, x1, x2, tol=5e-16):
-        r = self.real(x1, x2, tol=tol)
-        self.calls.append((x1, x2, tol, r))
-        return r
+        r = _scalar(self.real(x1, x2, tol=tol))
+        g = r
+        if self.E.symbolic:
+            # the real result is only *renamed*: g is a fresh variable with the definitional fact g == r (group res<m>), so
+            # that the max/min/mean combination in correlation_index is built over small terms
+            from vt import sym
+
+            g = _fresh("ci")
+            sym.CTX.add_fact(f"res{len(self.calls)}", g.t == sym.term(r))
+        self.calls.append((x1, x2, tol, r, g))
+        return g
 
     def __enter__(self):
         if self.E.symbolic:
@@ -551,16 +652,15 @@ def _corr_common(E, cfg, A, B, ch, cos, method, R):
     if len(rec.calls) != cos.M:
         return None
     g = []
-    for m, (x1, x2, tl_, res) in enumerate(rec.calls):
+    for m, (x1, x2, tl_, res, gm) in enumerate(rec.calls):
         E.prove(f"pair{m}/default_tolerance_forwarded", tl_ == tol)
         kk = [[None] * R for _ in range(R)]
         for r in range(R):
             for s in range(R):
-                kk[r][s] = ch.ab("cc", abs(dotv(colv(x1, r), colv(x2, s))), f"cdef{m}")
-                ch.lemma(f"pair{m}/abs_crossproduct_{r}{s}_is_abs_cosine", E.eq(kk[r][s], cos.k[m][r][s]), groups=(f"cdef{m}",) + cos.g_defs, into=("link", f"link{m}"))
-        gm = ch.ab("ci", _scalar(res), f"res{m}")
+                kk[r][s] = ch.ab("cc", _abs_plain(E, dotv(colv(x1, r), colv(x2, s))), f"cdef{m}")
+                ch.lemma(f"pair{m}/abs_crossproduct_{r}{s}_is_abs_cosine", E.eq(kk[r][s], cos.k[m][r][s]), groups=(f"cdef{m}",) + cos.g_defs, into=("link", f"link{m}"), scope="pc")
         ch.lemma(f"pair{m}/index_equals_corrindex_formula", E.eq(gm, _corr_oracle(E, kk, R, tol)), groups=(f"cdef{m}", f"res{m}"), into=("link", f"link{m}"))
-        ch.lemma(f"pair{m}/index_in_unit_interval", E.And(E.ge(gm, 0), E.le(gm, 1)), groups=(f"link{m}",) + tuple(f"unit/{m}{r}{s}" for r in range(R) for s in range(R)), into=("gunit",))
+        ch.lemma(f"pair{m}/index_in_unit_interval", E.And(E.ge(gm, 0), E.le(gm, 1)), groups=(f"link{m}",) + tuple(f"unit/{m}{r}{s}" for r in range(R) for s in range(R)), into=("gunit",), scope="all")
         g.append(gm)
     if method == "stacked":
         spec = g[0]
@@ -570,10 +670,10 @@ def _corr_common(E, cfg, A, B, ch, cos, method, R):
         spec = E.min(g)
     else:
         spec = sum(g) / len(g)
-    if E.symbolic and not any(isinstance(c[3], int) for c in rec.calls):
+    if E.symbolic and not any(isinstance(c[3], (int, np.integer)) for c in rec.calls):
         E.vacuity()
     v = ch.ab("score", score, "out")
-    ch.lemma(f"score/is_{method}_of_pair_indices", E.eq(v, spec), groups=("out",) + tuple(f"res{m}" for m in range(cos.M)), into=("link",))
+    ch.lemma(f"score/is_{method}_of_pair_indices", E.eq(v, spec), groups=("out",) + tuple(f"res{m}" for m in range(cos.M)), into=("link",), scope="all")
     return v, g
 
 
@@ -592,7 +692,7 @@ def h_corr_range(E, cfg):
     if out is None:
         return
     v, g = out
-    E.prove("score/in_unit_interval", E.And(E.ge(v, 0), E.le(v, 1)), groups=("link", "gunit"))
+    ch.prove("score/in_unit_interval", E.And(E.ge(v, 0), E.le(v, 1)), groups=("link", "gunit"), scope="all")
 
 
 def h_corr_equiv(E, cfg):
@@ -635,7 +735,7 @@ def h_corr_equiv(E, cfg):
     if out is None:
         return
     v, g = out
-    E.prove("equivalent_sets/index_is_zero", E.eq(v, 0), groups=("link", "unit", "one"))
+    ch.prove("equivalent_sets/index_is_zero", E.eq(v, 0), groups=("link", "unit", "one"), scope="all")
 
 
 # ------------------------------------------------------------------------------------ cp_permute_factors
@@ -678,26 +778,28 @@ def h_cp_permute(E, cfg):
     col = [int(x) for x in col]
     E.prove("returns_one_permutation_per_tensor", len(perms) == 1)
     perm = [int(p) for p in np.asarray(perms[0]).ravel()]
-    E.prove("perm/is_solver_assignment", perm == col)
-    E.prove("perm/is_permutation", sorted(perm) == list(range(R)))
+    _prove_after_assignment(E, "perm/is_solver_assignment", perm == col, groups=("lsa", "lsa_def"))
+    E.prove("perm/is_permutation", sorted(perm) == list(range(R)), groups=("lsa", "lsa_def"))
     E.prove("output_is_single_cp_tensor", not isinstance(out, list))
     if isinstance(out, list):
         return
     w_out, F_out = out
     E.prove("weights/shape", np.shape(w_out) == (R,))
-    E.prove("weights/permuted_by_solver_assignment", [E.eq(w_out[r], wt0[perm[r]]) for r in range(R)])
+    _prove_after_assignment(E, "weights/permuted_by_solver_assignment", [E.eq(w_out[r], wt0[perm[r]]) for r in range(R)])
     for m in range(len(shape)):
         E.prove(f"factor{m}/shape", np.shape(F_out[m]) == (shape[m], R))
-        E.prove(f"factor{m}/columns_permuted_by_solver_assignment", [E.eq(F_out[m][i, r], Ft0[m][i][perm[r]]) for i in range(shape[m]) for r in range(R)])
+        _prove_after_assignment(E, f"factor{m}/columns_permuted_by_solver_assignment", [E.eq(F_out[m][i, r], Ft0[m][i][perm[r]]) for i in range(shape[m]) for r in range(R)])
     E.prove_eq("dense_tensor_unchanged", _dense_cp(w_out, F_out, shape, R), dense_in)
+    if not cfg["align"]:
+        return
     # aligned: the solver was asked to match reference columns with target columns by product of |cosines|, so by
     # its contract the identity matching is optimal between the reference and the permuted tensor
     for r in range(R):
         for s in range(R):
-            ch.lemma(f"cost_matrix/entry{r}{s}_is_minus_cosine_product", E.eq(Kc[r, s], -cos.P[r][s]), groups=("lsa_def",) + cos.g_defs, into=("link",))
+            ch.lemma(f"cost_matrix/entry{r}{s}_is_minus_cosine_product", E.eq(Kc[r, s], -cos.P[r][s]), groups=("lsa_def",) + cos.g_defs, into=("link",), scope="pc", per_config=True)
     ident = sum(cos.P[r][perm[r]] for r in range(R))
     for s in itertools.permutations(range(R)):
-        E.prove(f"aligned/identity_matching_optimal_after_permutation/{_pstr(s)}", E.ge(ident, sum(cos.P[r][perm[s[r]]] for r in range(R))), groups=("lsa", "link"))
+        ch.prove(f"aligned/identity_matching_optimal_after_permutation/{_pstr(s)}", E.ge(ident, sum(cos.P[r][perm[s[r]]] for r in range(R))), groups=("lsa", "link"), scope="all")
 
 
 # ------------------------------------------------------------------------------------ error metrics
@@ -715,9 +817,14 @@ def _mean(xs):
 
 
 def h_metric(E, cfg):
-    fn, shape, axis = cfg["fn"], cfg["shape"], cfg["axis"]
+    fn, shape = cfg["fn"], cfg["shape"]
     yt = E.real("yt", shape)
     yp = E.real("yp", shape)
+    for axis in [None] + ([] if fn == "R2_score" else list(range(len(shape)))):
+        _metric_axis(E, fn, yt, yp, axis, f"axis{axis}/")
+
+
+def _metric_axis(E, fn, yt, yp, axis, pre):
     oshape, T_ = _along(yt, axis)
     _, P_ = _along(yp, axis)
     spec = {}
@@ -763,17 +870,17 @@ def h_metric(E, cfg):
     except (KeyError, AssertionError):
         raise
     except Exception as e:
-        E.prove("no_exception", False, detail=f"{type(e).__name__}: {e}")
+        E.prove(pre + "no_exception", False, detail=f"{type(e).__name__}: {e}")
         return
-    E.prove("shape", tuple(np.shape(out)) == tuple(oshape))
+    E.prove(pre + "shape", tuple(np.shape(out)) == tuple(oshape))
     if tuple(np.shape(out)) != tuple(oshape):
         return
     name = {"R2_score": "equals_coefficient_of_determination"}.get(fn, "equals_definition")
     o = np.asarray(out, dtype=object if E.symbolic else float)
-    E.prove(name, [E.eq(o[j], spec[j]) for j in spec])
+    E.prove(pre + name, [E.eq(o[j], spec[j]) for j in spec])
     if fn == "R2_score":
         # the uncentred variant (R^2 of a model without intercept): what tensorly's unit tests and CP_PLSR.score rely on
-        E.prove("equals_uncentred_r2", E.eq(o[()], spec_unc))
+        E.prove(pre + "equals_uncentred_r2", E.eq(o[()], spec_unc))
 
 
 # ------------------------------------------------------------------------------------ leverage scores
@@ -800,14 +907,18 @@ def h_leverage(E, cfg):
         X = M
     else:
         X = tl.tensor(M, dtype=tl.float32) if dt == "lowprec" else M
+    # the SVD contract group is listed everywhere so that a counterexample model has M == U diag(S) V for the stub outputs of
+    # this path (e.g. rank deficient on the path where the numerical-rank comparison drops a singular value): replayable
+    G = ("svd_factor",)
     try:
         p = ML.leverage_score_dist(X)
     except Exception as e:
-        # no distribution exists for the zero matrix; anything else must not raise
-        E.prove("raises_only_for_zero_matrix", [E.eq(M[i, j], 0) for i in range(m) for j in range(n)], groups=("svd_factor",), detail=f"{type(e).__name__}: {e}")
+        # no distribution exists for the zero matrix; anything else must not raise.  Same obligation name as on the normal
+        # path: a defect that raises symbolically (x / 0) typically yields nan, i.e. a wrong sum, in the float64 replay
+        E.prove("sums_to_one", [E.eq(M[i, j], 0) for i in range(m) for j in range(n)], groups=G, detail=f"raised {type(e).__name__}: {e}")
         return
     E.prove("shape", tuple(np.shape(p)) == (m,))
     p = np.asarray(p, dtype=object if E.symbolic else float)
     for i in range(m):
-        E.prove(f"nonnegative/row{i}", E.ge(p[i], 0))
-    E.prove("sums_to_one", E.eq(sum(p[i] for i in range(m)), 1))
+        E.prove(f"nonnegative/row{i}", E.ge(p[i], 0), groups=G)
+    E.prove("sums_to_one", E.eq(sum(p[i] for i in range(m)), 1), groups=G)
